@@ -22,6 +22,7 @@ EXPLANATION = (
     "positional-only-passed-as-keyword TypeError; (cachekey) the process-global signature memo is keyed by an "
     "identity-bearing component of the callable. That the binding is right for every signature x call shape is a value-level "
     "claim and is NOT decided here."
+    " Added after seeded batch 9: a callable that declares its own __signature__ is not served from the signature memo unless the key covers it (F39)."
 )
 EXPLANATION += (
     " " + 'The memo key must also identify the unwrapped function the signature is read from (inspect follows __wrapped__; the outer code object alone is shared by everything one decorator wrapped).'
